@@ -35,7 +35,7 @@ def parseVar (t : String) : Option VarDecl :=
   let k := t.toList.headD ' '
   let sg := (t.drop (t.length - 1)).toString
   let w := ((t.drop 1).toString.dropEnd 1).toString
-  if k ∈ ['x', 'y', 'q', 'w', 'r'] then
+  if k ∈ ['x', 'y', 'q', 'w', 'r', 'l'] then
     match w.toNat?, parseSign sg with
     | some w, some s => if 0 < w ∧ w ≤ 4096 then some { kind := k, width := w, signed := s } else none
     | _, _ => none
@@ -125,6 +125,22 @@ def parseStmt (vars : List VarDecl) : Nat → List String → Option (Stmt × Li
       match parseLhs vars rest with
       | some (l, r1) => (parseRhs vars r1).map fun (r, r2) => (.set l r, r2)
       | none => none
+    else if t = "setd" then
+      -- `setd,<var>,<w>,<index expr>,<expr>`: var[idx*w +: w] = expr
+      match rest with
+      | v :: w :: r0 =>
+        match v.toNat?, w.toNat? with
+        | some v, some w =>
+          match vars[v]? with
+          | some d =>
+            if 0 < w ∧ w ≤ d.width then
+              match parseRhs vars r0 with
+              | some (idx, r1) => (parseRhs vars r1).map fun (r, r2) => (.setDyn v d.width w idx r, r2)
+              | none => none
+            else none
+          | none => none
+        | _, _ => none
+      | _ => none
     else if t = "if" then
       match parseRhs vars rest with
       | some (c, r1) =>
